@@ -178,6 +178,17 @@ def run(ctx: Ctx) -> None:
         okh = classes <= got and all(any(call_name(c) == "self.protocol.handle" and c.args and "Closed()" in norm(c.args[0]) for c in calls(h)) for h in hs)
         ctx.check("C08.R5", w, f"write failure ({'/'.join(sorted(classes))}) -> protocol.handle(Closed())", bool(hs) and okh, f"handlers catch {sorted(got)}; a failed/closed transport must be reported to the protocol instead of raising into the application", hs[0] if hs else arm)
 
+    he = repo.func(M, "H2Protocol._handle_events")
+    arm = arm_for(he, "event", "StreamReset")
+    ctx.need(arm is not None, "_handle_events: no StreamReset arm")
+    cl = [c for c in body_calls_(arm.body) if isinstance(c.func, ast.Attribute) and c.func.attr == "close" and norm(c.func.value) == "self.stream_buffers[event.stream_id]"]
+    ok = len(cl) == 1 and isinstance(getattr(cl[0], "_parent", None), ast.Await)
+    if ok:
+        extra = {a for a in guard_atoms(cl[0], stop=arm) if a != (norm(arm.test), True)}
+        ok = extra <= {("event.stream_id in self.stream_buffers", True)}
+    ctx.check("C08.R4", f"{M}:H2Protocol._handle_events", "StreamReset -> close() the stream's buffer", ok,
+              "a reset stream whose window is exhausted never makes h2 raise (chunk size 0, nothing sent), so its buffer is never force-closed and the application's blocked send waits until the whole connection closes", arm)
+
     # R4 (cont.): the reader reports the end of the connection to the protocol on every exit
     for mod in ("asyncio.tcp_server", "trio.tcp_server"):
         rdf = repo.func(mod, "TCPServer._read_data")
@@ -240,6 +251,12 @@ def run(ctx: Ctx) -> None:
 
     ctx.assume("not decided: the numeric bound itself, fairness between streams, promptness of release; asyncio StreamWriter.drain / trio send_all semantics are trusted")
     ctx.assume("invariant used (exempt site): a stream unblocked in the priority tree always has an entry in stream_buffers, so the lookup inside _send_data's handler cannot raise")
+
+
+def body_calls_(stmts):
+    out = [n for s in stmts for n in ast.walk(s) if isinstance(n, ast.Call)]
+    out.sort(key=lambda c: (c.lineno, c.col_offset))
+    return out
 
 
 def _inside(node: ast.AST, body) -> bool:
